@@ -18,7 +18,7 @@ KF_INSERT = "KF-C17-parameter-insertion-by-text-search"
 
 HDR = "import pytest\n\n"
 VISIBLE = ["fa", "fb", "fc", "settings"]       # defined in conftest.py
-INVISIBLE = ["inv_sibling", "nowhere"]          # sibling conftest / not defined at all
+INVISIBLE = ["inv_sibling", "inv_prefix", "nowhere"]   # sibling conftest / conftest of a sibling whose directory name is a string prefix of ours / not defined at all
 
 USE_FORMS = [        # (template, label) ; {n} is the name
     ("{n}()", "must"), ("call({n})", "must"), ("call(1, {n}, 2)", "must"), ("{n}.attr", "must"), ("{n}.m(1)", "must"),
@@ -255,6 +255,9 @@ def directed_doc(rng):
     g.emit("def test_commented(fb):  # regression (issue 12)")
     g.funcs.append({"name": "test_commented", "line0": fline, "shape": "single+comment", "kind": "test", "declared": ["fb"], "simple": True})
     g.add_stmt("w = fc.attr", "fc", "must", "test_commented", 4)
+    # defined by the conftest of pk/ only (sibling directory, string prefix of pkg/): not available here
+    g.add_stmt("call(inv_prefix)", "inv_prefix", "never", "test_commented", 4)
+    g.add_stmt("call(inv_sibling)", "inv_sibling", "never", "test_commented", 4)
     g.emit("    pass")
     g.emit("")
     return g
@@ -367,7 +370,10 @@ def run(ctx):
     conf = HDR + "".join(f"@pytest.fixture\ndef {n_}():\n    return 1\n\n" for n_ in VISIBLE)
     # the sibling conftest (invisible from pkg/) also defines a name that IS visible through the root conftest
     sib = HDR + "@pytest.fixture\ndef inv_sibling():\n    return 1\n\n@pytest.fixture\ndef " + VISIBLE[0] + "():\n    return 2\n"
-    write_tree(root, {"conftest.py": conf, "sib/conftest.py": sib, "pkg/test_doc.py": ""})
+    # pk/ is a sibling of pkg/ whose name is a string prefix of it: its conftest is not on pkg's path
+    pfx = HDR + "@pytest.fixture\ndef inv_prefix():\n    return 1\n"
+    write_tree(root, {"conftest.py": conf, "sib/conftest.py": sib, "pk/conftest.py": pfx, "pk/test_other.py": "def test_o(inv_prefix):\n    pass\n",
+                      "pkg/test_doc.py": ""})
     f = os.path.join(root, "pkg", "test_doc.py")
     srv = LSP(srv_bin(), root, locklog=os.path.join(ctx.scratch_root, "lock_srv.log"))
     try:
